@@ -870,6 +870,8 @@ def run_scenarios(scs, mutant=None):
     for r, sc in zip(res, scs):
         if 'error' in r:
             raise common.MachineryError('harness exception while executing %s:\n%s' % (json.dumps(sc)[:300], r['error']))
+        if r['q']['run'] == 'budget' or 'budget' in r['detail']['why']:
+            raise common.MachineryError('scheduler step budget exhausted (no verdict possible) in %s' % json.dumps(sc)[:300])
     return res
 
 
@@ -914,9 +916,15 @@ def signature(t, clause, at):
     if clause == 'Deadlock':
         bl = [x for x in q['threads'] if x['status'] == 'blocked' and not (x['op'] == 'queue.get' and x['role'] in ('upd', 'ext', 'dev'))
               and not (x['op'] == 'event.wait' and x['file'] == 'syncCrazyflie.py')]
-        parts = sorted('%s:%s@%s' % (x['role'], x['op'], x['fn']) for x in bl)
+        owner = role_of_t(q['owner']) if q['sendlock'] else 'free'
         mem = '/mem-write-lock' if any(x['fn'] in ('_call_all_failed_callbacks', 'write', '_handle_chan_write') for x in bl) else ''
-        return 'Deadlock/%s%s/sendlock=%s' % ('+'.join(parts) or 'pending-call', mem, role_of_t(q['owner']) if q['sendlock'] else 'free')
+        if q['sendlock'] and any(x['name'] == q['owner'] and x['op'] == 'thread.join' for x in bl):
+            # the canonical cycle: the owner of _send_lock joins the ping thread, which waits for _send_lock
+            return 'Deadlock/join-ping-thread-under-sendlock/owner=%s%s' % (owner, mem)
+        if q['sendlock'] and not any(x['name'] == q['owner'] for x in bl):
+            return 'Deadlock/sendlock-leaked-by-%s%s' % (owner, mem)
+        parts = sorted({'%s:%s@%s' % (x['role'], x['op'], x['fn']) for x in bl})
+        return 'Deadlock/%s%s/sendlock=%s' % ('+'.join(parts) or 'pending-call', mem, owner)
     if clause == 'SyncCallHangs':
         p = [x for x in q['pending'] if x['kind'] in ('sopen', 'sclose')]
         kind = p[0]['kind'] if p else '?'
@@ -937,7 +945,12 @@ def signature(t, clause, at):
         w = words.get(a, [])
         # was the attempt already being torn down (an error report or close_link of it had begun)?
         torn = any(x['e'] in ('lerr', 'close') and x['att'] == a for x in ev[:at])
-        return '%s/%s/%s' % (clause, '-'.join(w), 'during-teardown' if torn else ('reconnect' if a > 1 else 'first-attempt'))
+        ctx = 'during-teardown' if torn else ('reconnect' if a > 1 else 'first-attempt')
+        if clause == 'Grammar':
+            shape = '-'.join(x for x in w if x in ('requested', 'failed', 'established', 'connected', 'fully'))
+        else:
+            shape = e.get('name', '')
+        return '%s/%s/%s' % (clause, shape, ctx)
     if clause in ('FailureDisconnectedThenLost', 'FailureBeforeFirstPacketFails', 'CloseOneDisconnected'):
         # the thread that ran the report / the call, how it ended, and where an exception came from
         begin = next((x for x in reversed(ev[:at]) if x['e'] in ('lerr', 'close') and x['cid'] == e.get('cid')), {})
@@ -1044,14 +1057,17 @@ def main(tier, seed, replay=None):
         combos = [(s_, c_, inv, 2, 1) for s_ in ('FALSE', 'TRUE') for c_ in ('FALSE', 'TRUE')
                   for inv in ('HistoryOK', 'QuietOK', 'NoThreadDies', 'ReconnectOK')
                   if tier == 'thorough' or not (c_ == 'TRUE' and inv in ('QuietOK', 'ReconnectOK'))]
-        combos += [('FALSE', 'FALSE', 'NoJoinUnderSendLock', 2, 1), ('TRUE', 'FALSE', 'NoJoinUnderSendLock', 2, 1)]
+        combos += [('FALSE', 'FALSE', 'NoJoinUnderSendLock', 2, 1)]
         if tier == 'thorough':
             combos += [('FALSE', 'FALSE', inv, 3, 2) for inv in ('HistoryOK', 'QuietOK', 'ReconnectOK')]
         f_asis = []
         for i, (s_, c_, inv, natt, mf) in enumerate(combos):
-            p = _cfg_with('MC_Lifecycle_asis.cfg', scratch, 'asis%d.cfg' % i, UseSync=s_, Closer=c_, NAtt=natt, MaxFaults=mf,
-                          Defects=_tla_set(defects), INVARIANTS=[inv])
-            f_asis.append(pool.submit(tlc.run, 'MC_Lifecycle.tla', p, timeout=1500, workers=max(2, workers // 2)))
+            over = dict(UseSync=s_, Closer=c_, NAtt=natt, MaxFaults=mf, Defects=_tla_set(defects), INVARIANTS=[inv])
+            if inv == 'NoJoinUnderSendLock':
+                over.update(FaultBy='{"sender"}', MaxPings=1)
+            p = _cfg_with('MC_Lifecycle_asis.cfg', scratch, 'asis%d.cfg' % i, **over)
+            # one worker: breadth-first search is then deterministic, so the same seed gives the same counterexample
+            f_asis.append(pool.submit(tlc.run, 'MC_Lifecycle.tla', p, timeout=2400, workers=1))
         nsim = 60 if tier == 'quick' else 600
         p = _cfg_with('SIM_Lifecycle.cfg', scratch, 'sim.cfg', Defects=_tla_set(defects))
         f_sim = pool.submit(tlc.simulate, 'MC_Lifecycle.tla', p, num=nsim, depth=160, seed=seed % 100000, timeout=1500)
